@@ -144,7 +144,7 @@ func (fr *Frame) frameObligations(fc *FuncContract, entry, out *State, pos token
 			g := vc.parseType(m[6:len(m)-1], ctx.pkg)
 			set := map[string]bool{}
 			fr.typeCells(g.Go, set)
-			for k := range set {
+			for _, k := range sortedKeys(set) {
 				declared[k] = true
 			}
 			continue
@@ -156,7 +156,7 @@ func (fr *Frame) frameObligations(fc *FuncContract, entry, out *State, pos token
 			g := vc.parseType(m[4:len(m)-1], ctx.pkg)
 			set := map[string]bool{}
 			fr.mapKeys(g.Go, set)
-			for k := range set {
+			for _, k := range sortedKeys(set) {
 				declared[k] = true
 			}
 			continue
